@@ -836,6 +836,9 @@ impl<RW: QueueRW<T>, T> Stream for &FutInnerRecv<RW, T> {
                 }
                 Err((_, TryRecvError::Disconnected)) => return Ok(Async::Ready(None)),
                 Err((_, _)) => {
+                    // A failed attempt on a shared stream may have pinned a slot for a moment
+                    // and made a sender park on a transient Full: wake senders here as well
+                    self.prod_wait.notify_all();
                     let count = self.reader.reader.load_count(Relaxed);
                     let queue = &self.reader.queue;
                     if self.wait.fut_wait(count, queue.wraps_at(count), &queue.writers) {
